@@ -7,7 +7,7 @@ op list) decides when the next box of a direction is delivered (its bytes arrive
 the connection is lost — possibly after only a prefix of the next box's bytes has arrived.
 
 case = {"ops": [["call", peer, kind, follow] | ["deliver", dir, k] | ["fire", index, outcome]
-                | ["disc", dir, cutpermille]], "chunks": seed}
+                | ["disc", dir, cutpermille] | ["cancel", call id]], "chunks": seed}
   peer / dir: 0 = A (-> B), 1 = B (-> A);  kind: now | later | declared | sub | fatal | undeclared | unknown
   (sub: the responder raises a strict subclass of the declared exception; fatal: a declared fatal error;
    echo: callRemoteString to a low-level amp_ECHO responder that answers with the very box it was handed, so the
@@ -229,6 +229,7 @@ def impl(case) -> str:
     tagcount = [0, 0]
     tagged: list[list] = [[], []]      # per peer: (call id, tag) of the calls that were put on the wire
     firedset: set = set()
+    dcalls: dict = {}                  # call id -> its Deferred (for cancel)
     want_desc: dict = {}               # call id -> description bytes its error must carry (decoded leniently)
     descbad: list = []
 
@@ -320,16 +321,24 @@ def impl(case) -> str:
                 def err(f, i=i):
                     firedset.add(i)
                     ev.append(f"C{i}=err:{f.type.__name__}")
-                    if i in want_desc and f.type.__name__ != "ConnectionDone":
+                    if i in want_desc and f.type.__name__ not in ("ConnectionDone", "CancelledError"):
                         got = getattr(f.value, "description", None) or str(f.value)
                         if got != want_desc[i].decode("utf-8", "replace"):
                             descbad.append(f"C{i}:{got[:20]!r}")
                     again()
 
+                dcalls[i] = d
                 d.addCallbacks(ok, err)
 
             issue(op[1], op[2], bool(op[3]) if len(op) > 3 else False, op[4] if len(op) > 4 else 0)
             pump()
+        elif op[0] == "cancel":
+            j = op[1]
+            if j in dcalls and j not in firedset:
+                dcalls[j].cancel()      # no canceller: fails with CancelledError now, swallows the dispatcher's later result
+                pump()
+            else:
+                ev.append("-")
         elif op[0] == "raw":
             p, j, combo, k = op[1], op[2], op[3], op[4]
             # only calls whose responder will never answer by itself (a second, genuine answer would hit a retired tag)
@@ -500,6 +509,10 @@ def oracle(case, obs):
                 c["fired"] = True
                 if c["follow"]:
                     expect_nested = i
+                if res == "err:CancelledError":
+                    if op[0] != "cancel" or op[1] != i:
+                        return Failure(case, where + f"call {i} failed with CancelledError although nobody cancelled it", "spurious-cancel")
+                    continue
                 if res == "err:ConnectionDone":
                     if up:
                         return Failure(case, where + f"call {i} failed with the loss reason while connected", "spurious-loss")
@@ -547,7 +560,7 @@ def gen(rng, tier):
     alpha = [["call", 0, "now", False], ["call", 1, "now", True], ["call", 0, "later", True], ["call", 0, "declared", False],
              ["call", 1, "sub", True], ["call", 0, "fatal", False], ["call", 1, "undeclared", False],
              ["call", 0, "unknown", True], ["call", 1, "echo", True], ["call", 0, "baddesc", False, 0],
-             ["deliver", 0, 1], ["deliver", 1, 1],
+             ["deliver", 0, 1], ["deliver", 1, 1], ["cancel", 0],
              ["fire", 0, "ok"], ["fire", 0, "sub"], ["fire", 0, "undeclared"], ["disc", 0, 500]]
     depth = 3 if tier == "quick" else 5
     for n in range(1, depth + 1):
@@ -573,6 +586,8 @@ def gen(rng, tier):
                 ops.append(["fire", rng.choice([0, 0, 1, 2, 5]), rng.choice(["ok", "ok", "declared", "sub", "baddesc"] + (["undeclared", "fatal"] if fatal else []))])
             elif r < 0.96:
                 ops.append(["disc", rng.randrange(2), rng.choice([0, 1, 500, 999])])
+            elif r < 0.985:
+                ops.append(["cancel", rng.randrange(0, 9)])
             else:
                 ops.append(["call", rng.randrange(2), "now", True])
         cases.append({"ops": ops, "chunks": rng.randrange(1 << 30)})
@@ -626,6 +641,10 @@ def corpus():
         {"ops": [["call", 0, "now", False], ["call", 0, "later", False], ["call", 1, "undeclared", False], ["deliver", 0, 1], ["deliver", 1, 1],
                  ["call", 1, "now", False]], "chunks": 2},
         {"ops": [["call", 0, "now", False], ["disc", 0, 999], ["call", 0, "now", False], ["call", 1, "unknown", False]], "chunks": 3},
+        # the application cancels calls that are still outstanding; the peer answers them later (seeded C31-G)
+        {"ops": [["call", 0, "later", True], ["call", 0, "now", False], ["call", 1, "now", False], ["cancel", 0], ["cancel", 0],
+                 ["deliver", 0, 2], ["fire", 0, "ok"], ["deliver", 1, 3], ["deliver", 0, 3], ["cancel", 1], ["call", 0, "later", False],
+                 ["cancel", 4], ["disc", 0, 0], ["cancel", 2]], "chunks": 9},
         # echo-style low-level responder (answer box keeps _command), errors with invalid-UTF-8 / empty / long descriptions,
         # raw boxes with several routing keys (seeded C31-E / C31-F)
         {"ops": [["call", 0, "echo", True], ["call", 1, "echo", False], ["deliver", 0, 1], ["deliver", 1, 2], ["deliver", 0, 2],
@@ -658,6 +677,8 @@ def to_coq(case):
             return f"OCall {'true' if o[1] else 'false'} K{k} {'true' if (len(o) > 3 and o[3]) else 'false'}"
         if o[0] == "deliver":
             return f"ODeliver {'true' if o[1] else 'false'} {int(o[2])}%nat"
+        if o[0] == "cancel":
+            return f"OCancel {int(o[1])}%nat"
         if o[0] == "fire":
             return f"OFire {int(o[1])}%nat Out{'declared' if o[2] == 'baddesc' else o[2]}"
         return "ODisc"
@@ -683,7 +704,7 @@ SPEC = Spec(
     ("switch:" if "I0:sw" in o or "I1:sw" in o else "") + ("lost" if " |up=F" in o else "up") + (":fatal" if "UnknownRemoteError" in o else ""),
     case_timeout=120.0,
     rule="every history of length <= 2, 30% of length 3 (quick) / <= 3, 40% of length 4, 1% of length 5 (thorough) over a "
-         "16-letter alphabet (calls of each responder kind incl. subclass-of-declared and fatal declared errors, with and "
+         "17-letter alphabet (incl. cancelling call 0) (calls of each responder kind incl. subclass-of-declared and fatal declared errors, with and "
          "without a re-entrant follow-up call from their callback/errback, from either peer; deliver one box in either direction; "
          "fire the oldest pending responder with success / subclass error / undeclared error; loss in the middle of the next box), plus "
          "random histories of 5-50 ops (deliveries of 1-7 boxes, responders fired out of order, loss at 0/0.1/50/99.9% of "
